@@ -286,6 +286,14 @@ def scrape_conc():
     facts["release_synchronizes"] = order in ("SeqCst", "AcqRel") or (order == "Release" and fence_before_free)
     facts["refs_starts_at"] = 1 if re.search(r"refs:\s*AtomicUsize::new\(1\)", w) else 0
     facts["inner_is_mutex"] = bool(re.search(r"pub inner:\s*Mutex<Box<T>>", w))
+    # downcast_concrete: the caller's closure runs while the implementation's lock is held
+    dc = fn_body(w, r"pub fn downcast_concrete<[^>]*>\(")
+    if dc is None:
+        problems.append("wrapper.rs: downcast_concrete not found")
+    else:
+        a, b, c = dc.find(".inner.lock()"), dc.find("f(i)"), dc.find("drop(locked)")
+        scoped = re.search(r"let i = \{[^}]*\.inner\.lock\(\)", dc, re.S)
+        facts["downcast_closure_under_lock"] = 0 <= a < b < c and not scoped
     inv = read("idlc_codegen_rust/src/interface/functions/invoke.rs")
     tm = re.search(r"match \(\*\{CONTEXT\}\)\.inner\.lock\(\)(.*?)\.and_then\(\|mut cx\| cx\.r#\{ident\}\(\{params\}\)\)", inv, re.S)
     facts["arm_locks_before_call"] = bool(tm)
@@ -296,7 +304,7 @@ def scrape_conc():
 def render_conc(facts):
     out = ["(* GENERATED by lib/translate.py from tests/src/object/wrapper.rs and the Rust skeleton emitter. *)",
            "Require Import Base.", ""]
-    for k in ("retain_is_rmw", "release_is_rmw", "release_synchronizes", "inner_is_mutex", "arm_locks_before_call", "arm_holds_lock_during_call"):
+    for k in ("retain_is_rmw", "release_is_rmw", "release_synchronizes", "inner_is_mutex", "arm_locks_before_call", "arm_holds_lock_during_call", "downcast_closure_under_lock"):
         out.append("Definition %s : bool := %s." % (k, "true" if facts.get(k) else "false"))
     out.append("Definition release_frees_on : nat := %d." % facts.get("release_frees_on", 0))
     out.append("Definition refs_starts_at : nat := %d." % facts.get("refs_starts_at", 0))
